@@ -248,3 +248,37 @@ package flamego
 //@   modifies req.chains
 //@   panics true
 //@   ghost before run#0: req.chains = req.chains + 1
+
+//@ define routerWF(r *router) bool = r.notFound != nil && r.routeTrees != nil && r.staticRoutes != nil &&
+//@     (forall m string :: has(r.routeTrees, m) ==> r.routeTrees[m] != nil) &&
+//@     (forall m string, p string :: has(r.staticRoutes, m) && has(r.staticRoutes[m], p) ==> r.staticRoutes[m][p] != nil)
+
+//@ func (*router).ServeHTTP
+//@   props C07
+//@   requires routerWF(r) && treeWF()
+//@   requires w != nil && req != nil && req.URL != nil
+//@   modifies req.chains, route.Segment.str, route.Segment.strOnce.fired, route.Route.str, route.Route.strOnce.fired
+//@   panics true
+//@   ensures req.chains == old(req.chains) + 1
+
+//@ iface Router.ServeHTTP(this, w, req)
+//@   requires dyn(this) == type(*router) && routerWF(this.(*router)) && treeWF()
+//@   requires w != nil && req != nil && req.URL != nil
+//@   modifies req.chains, route.Segment.str, route.Segment.strOnce.fired, route.Route.str, route.Route.strOnce.fired
+//@   panics true
+//@   ensures req.chains == old(req.chains) + 1
+
+//@ functype BeforeHandler(rw, req) stop
+//@   modifies nothing
+
+//@ define flameWF(f *Flame) bool = f.Router != nil && dyn(f.Router) == type(*router) && routerWF(f.Router.(*router)) &&
+//@     (forall k int :: 0 <= k && k < len(f.befores) ==> f.befores[k] != nil)
+
+//@ func (*Flame).ServeHTTP
+//@   props C07
+//@   requires flameWF(f) && treeWF()
+//@   requires w != nil && r != nil && r.URL != nil
+//@   modifies r.chains, r.URL.Path, route.Segment.str, route.Segment.strOnce.fired, route.Route.str, route.Route.strOnce.fired
+//@   panics true
+//@   ensures r.chains == old(r.chains) + 1 || (len(f.befores) > 0 && r.chains == old(r.chains))
+//@   loop 0 invariant flameWF(f) && treeWF() && r.URL != nil && r.chains == old(r.chains)
